@@ -46,7 +46,7 @@ func orDash(a []string, sep string) string {
 }
 
 func (r symReq) line() string {
-	l := fmt.Sprintf("auth %s %s %d %s %s %s %s %s %s", r.route, r.fn, r.argc, r.envcc, r.envch, r.acl, encArgs(r.args), orDash(r.sigs, ";"), orDash(r.keys, ";"))
+	l := fmt.Sprintf("auth %s %s %d %s %s %s %s %s %s", r.route, r.fn, r.argc, encS(r.envcc), encS(r.envch), r.acl, encArgs(r.args), orDash(r.sigs, ";"), orDash(r.keys, ";"))
 	if r.tamper != "" {
 		l += " " + r.tamper
 	}
